@@ -610,3 +610,4 @@ pub fn c12(ctx: &mut Ctx) {
     }
     let _ = &mut lg;
 }
+
